@@ -391,3 +391,35 @@ pub fn has_marker(v: &Value, top: bool) -> bool {
         _ => false,
     }
 }
+
+/// flows over claim sets that moderate random trees never produce: names that look like syntax, deep chains (model-friendly
+/// depths), with every strategy kind; selections: everything, nothing, and the path to the deepest node
+pub fn special_flows(r: &mut Rng, tier: Tier) -> Vec<Flow> {
+    let mut out = vec![];
+    let mut push = |claims: &Value, st: Strategy, sel: Value, i: usize| {
+        out.push(Flow {
+            issue: IssueArgs { claims: claims.clone(), strategy: st, holder: None, decoy: i % 2 == 0, fmt: if i % 3 == 0 { Fmt::Json } else { Fmt::Compact }, key: KeyId::Hmac1, alg: Some("HS256".to_string()), queue: None },
+            sel: sel.as_object().cloned().unwrap_or_default(),
+            kb: None,
+        });
+    };
+    for (ni, (claims, paths)) in notable_claims(now()).into_iter().enumerate() {
+        for (si, st) in [Strategy::All, Strategy::Top, Strategy::Custom(paths.clone()), Strategy::None].into_iter().enumerate() {
+            push(&claims, st.clone(), select_all(&claims), ni + si);
+            push(&claims, st, json!({}), ni + si + 1);
+        }
+    }
+    let depths: &[usize] = if tier == Tier::Quick { &[33, 66] } else { &[17, 33, 40, 65, 66, 100] };
+    for (di, d) in depths.iter().enumerate() {
+        let claims = gen_deep_claims_with(r, *d, now(), 6);
+        let mut ps = vec![];
+        all_positions(&claims, &vec![], &mut ps);
+        let deepest = ps.iter().max_by_key(|p| p.len()).cloned().unwrap_or_default();
+        let custom = Strategy::Custom(vec![spell(r, &deepest), spell(r, &deepest[..deepest.len() / 2].to_vec()), spell(r, &deepest[..deepest.len() - 1].to_vec())]);
+        for (si, st) in [Strategy::All, custom].into_iter().enumerate() {
+            push(&claims, st.clone(), select_all(&claims), di + si);
+            push(&claims, st, json!({}), di + si + 1);
+        }
+    }
+    out
+}
